@@ -13,6 +13,7 @@ import Lattigo.Proofs.BlindRotPhase
 import Lattigo.Proofs.BlindRotTable
 import Lattigo.Proofs.BlindRotMask
 import Lattigo.Proofs.RGSWShape
+import Lattigo.Proofs.RGSWLazy
 import Lattigo.Props.C20Ring
 import Lattigo.Props.C20Noise
 import Lattigo.Props.C20Stack
@@ -388,6 +389,31 @@ theorem rgsw_digit_partition (p : Par) (k : Nat) (hk : k < p.qsQ.length) :
 
 example : (Par.group { qsQ := [3, 5, 7, 11], qsP := [13, 17, 19], n := 2, w := 0 } 1 = [3]) := by decide
 
+/-- `extprod_lazy_no_wrap`: the unreduced 64-bit accumulation of `externalProductInPlaceMultipleP` (`lazySlot`:
+    `acc = t_0`, `acc += t_k`, a `Reduce` every `F` accumulations and at the end), per limb FAMILY: for a prime `p` of
+    the family `fam` (the Q primes, or the P primes, of the level; each `≤ 2^61`), stored values and digits `< p`, and
+    the family's own margin `F = lazyMargin fam = ⌊(2^64−1)/max fam⌋ >> 1` (`QiOverflowMargin>>1` resp.
+    `PiOverflowMargin>>1`), the accumulator never wraps — `(p−1) + F·(p + ⌊p²/2^64⌋) < 2^64`, number of accumulations
+    between two reductions × largest lazy term + one residue (`lazyMargin_ok`, `mredLazy_le`, `accSched_eq`) — and
+    the slot is the exact sum of the products modulo `p`, for ANY number of RNS digits. -/
+theorem extprod_lazy_no_wrap (p mrc : Nat) (fam : List Nat) (hp : 0 < p) (hmem : p ∈ fam)
+    (hfam : ∀ q ∈ fam, 8 * q ≤ W) (rs cs : List Nat) (hr : ∀ r ∈ rs, r < p) (hc : ∀ c ∈ cs, c < p) :
+    lazySlot p mrc (lazyMargin fam) rs cs =
+      (List.zipWith (fun r c => Gen.MRedLazy r c p mrc) rs cs).sum % p :=
+  lazySlot_eq p mrc fam hp hmem hfam rs cs hr hc
+
+/-- non-vacuity, and what a MERGED schedule does: 16 accumulations (8 RNS digits × 2 gadget ciphertexts) of the
+    legal lazy value `p` on a 61-bit P limb: with the P family's own margin (`4`) the result is `16p mod p = 0`; driven
+    by the margin of a 36-bit Q family (`134217726`, no reduction before the end) the sum `16p ≈ 2^65` wraps and the
+    limb holds garbage (seeded regression 1 of round 3; probe `extprod_decrypts`, tie `eplazy`). -/
+example :
+    let p := 2305843009213693921
+    lazyMargin [2305843009213693921, 2305843009213693153] = 4 ∧ lazyMargin [68719476577, 68719477313] = 134217726 ∧
+    accSched p (lazyMargin [2305843009213693921, 2305843009213693153]) (List.replicate 16 p) = 0 ∧
+    accSched p (lazyMargin [68719476577, 68719477313]) (List.replicate 16 p) ≠ 0 ∧
+    8 * p ≤ W := by
+  decide +kernel
+
 end Lattigo.Props.C20
 
 #print axioms Lattigo.Props.C20.rgsw_rows_phase
@@ -410,3 +436,4 @@ end Lattigo.Props.C20
 #print axioms Lattigo.Props.C20.brk_keys_requested_subset
 #print axioms Lattigo.Props.C20.blindrot_exponent_model
 #print axioms Lattigo.Props.C20.rgsw_digit_partition
+#print axioms Lattigo.Props.C20.extprod_lazy_no_wrap
